@@ -21,5 +21,5 @@ PROP = dict(
                  "documented exceptions: WaitedStatus() of a never-waited task reloads as Done; after a reload IsReady() equals Status().Ready()",
                  "expired notices and warnings are legitimately dropped by a save: the never-reloaded twin drops them at the same points",
                  "real clock inputs kept >= 4 minutes from every expiry/prune boundary"],
-    engines=[gt("roundtrip", "overlord/state", "TestVerifC05", dict(checks=1200, shards=4), dict(checks=20000, shards=16))],
+    engines=[gt("roundtrip", "overlord/state", "TestVerifC05", dict(checks=1200, shards=4), dict(checks=6000, shards=16))],
 )
